@@ -770,6 +770,50 @@ def sumCalc (sys : Sys) (fuel : Nat) (x : Id) (v : Var) : List Period → Option
     let a ← calcF sys fuel x v sp
     sumCalc sys fuel x v rest (some (match acc with | none => a | some b => vadd b a))
 
+/-- the ways a caller gets at a population of a simulation -/
+inductive Route where
+  | getPopulation     -- `simulation.get_population(entity.plural)`
+  | populations       -- `simulation.populations[entity.key]`
+  | shortcut          -- `simulation.<entity key>` (set by `create_shortcuts` / `clone`)
+  | persons           -- `simulation.persons`
+deriving DecidableEq, Repr
+
+/-- Every route is a look-up in the simulation object itself, derived each time and stored nowhere else: the
+population it returns is the one listed by *this* simulation. -/
+def routePop (x : Id) (r : Route) (ent : Nat) : HM Id := do
+  let so ← rdSim x
+  match r with
+  | .persons => pure so.persons
+  | .getPopulation => ofOption .value (alGet so.pops ent)
+  | .populations => ofOption .value (alGet so.pops ent)
+  | .shortcut => ofOption .value (alGet so.pops ent)
+
+/-- `population(v, period)` on the population a route returned: `check_variable_defined_for_entity`, then
+`population.simulation.calculate(v, period)` -/
+def calcThrough (sys : Sys) (fuel : Nat) (x : Id) (r : Route) (ent : Nat) (v : Var) (p : Period) : HM Vec := do
+  let pid ← routePop x r ent
+  let po ← rdPop pid
+  let decl ← varDecl sys v
+  if decl.entity ≠ po.entity then fail .value else
+  calcF sys fuel po.sim v p
+
+/-- `population.get_holder(v)` on the population `pid` -/
+def popGetHolder (sys : Sys) (r : Nat) (pid : Id) (v : Var) : HM (Id × HolderObj) := do
+  let decl ← varDecl sys v
+  let po ← rdPop pid
+  if decl.entity ≠ po.entity then fail .value else
+  match alGet po.holders v with
+  | some hid => do
+    let ho ← rdHolder hid
+    pure (hid, ho)
+  | none => createHolder sys r pid v
+
+/-- `population.get_holder(v).get_array(period)` on the population a route returned -/
+def readThrough (sys : Sys) (x : Id) (r : Route) (ent : Nat) (v : Var) (p : Period) : HM (Option Vec) := do
+  let pid ← routePop x r ent
+  let (_, ho) ← popGetHolder sys x.reg pid v
+  holderFind ho p
+
 /-- `Simulation.calculate_add`: `sum(calculate(v, sub) for sub in subperiods)`; `none` is the integer
 `0` Python's `sum` returns when there is no sub-period -/
 def calcAdd (sys : Sys) (fuel : Nat) (x : Id) (v : Var) (p : Period) : HM (Option Vec) := do
@@ -789,6 +833,8 @@ inductive Op where
   | setTrace (b : Bool)
   | touch (v : Var)          -- `simulation.get_holder(v)`
   | setBad (v : Var) (p : Period)   -- `set_input` with an array of the right length whose dtype cannot be cast
+  | calcVia (r : Route) (ent : Nat) (v : Var) (p : Period)   -- `<route>(v, period)`
+  | readVia (r : Route) (ent : Nat) (v : Var) (p : Period)   -- `<route>.get_holder(v).get_array(period)`
 deriving Repr
 
 /-- what a call returns -/
@@ -796,6 +842,7 @@ inductive Out where
   | done                     -- `None`
   | vec (a : Vec)
   | zero                     -- the integer `0` of an empty `calculate_add`
+  | nothing                  -- `get_array` found no value
 deriving DecidableEq, Repr
 
 /-- one public-API call on the simulation `x` -/
@@ -810,6 +857,11 @@ def step (sys : Sys) (fuel : Nat) (x : Id) : Op → HM Out
   | .setTrace b => do setTrace x b; pure .done
   | .touch v => do let _ ← getHolder sys x v; pure .done
   | .setBad v p => do setInputBad sys x v p; pure .done
+  | .calcVia r ent v p => do pure (.vec (← calcThrough sys fuel x r ent v p))
+  | .readVia r ent v p => do
+    match ← readThrough sys x r ent v p with
+    | some a => pure (.vec a)
+    | none => pure .nothing
 
 /-! ## observations of one simulation -/
 
@@ -844,6 +896,9 @@ structure Obs where
   inval : List Key
   personsListed : Bool       -- `simulation.persons is simulation.populations[person]`
   pops : List PopObs
+  routes : List (Nat × List Bool)   -- per entity: is the population returned by `get_population(plural)`,
+                                    -- `populations[key]`, `simulation.<key>` bound to this simulation?
+  personsRoute : Bool               -- `simulation.persons.simulation is simulation`
 deriving DecidableEq, Repr
 
 def observeHolder (x pid : Id) (e : Var × Id) : HM HolderObs := do
@@ -861,13 +916,27 @@ def observePop (x persons : Id) (e : Nat × Id) : HM PopObs := do
       groupSum po.membersEntityId ((roleBits po.roles role).map (fun b => if b then 1 else 0)) po.count),
     hs⟩
 
+/-- is the population a route returns bound to the simulation that was asked? -/
+def routeOwn (x : Id) (r : Route) (ent : Nat) : HM Bool := do
+  let pid ← routePop x r ent
+  let po ← rdPop pid
+  pure (decide (po.sim = x))
+
+def observeRoutes (x : Id) (e : Nat × Id) : HM (Nat × List Bool) := do
+  let a ← routeOwn x .getPopulation e.1
+  let b ← routeOwn x .populations e.1
+  let c ← routeOwn x .shortcut e.1
+  pure (e.1, [a, b, c])
+
 def observe (x : Id) : HM Obs := do
   let so ← rdSim x
   let tr ← rdTracer so.tracer
   let inv ← rdInval so.inval
   let pops ← mapMH (observePop x so.persons) so.pops
+  let routes ← mapMH (observeRoutes x) so.pops
+  let pr ← routeOwn x .persons 0
   pure ⟨so.debug, so.optOut, so.msl, so.trace, tr.full, tr.roots, tr.stack, inv,
-    decide (alGet so.pops 0 = some so.persons), pops⟩
+    decide (alGet so.pops 0 = some so.persons), pops, routes, pr⟩
 
 /-- `simulation.get_array(v, p)` without creating the holder (`none` = no value) -/
 def readValue (sys : Sys) (x : Id) (v : Var) (p : Period) : HM (Option Vec) := do
